@@ -57,6 +57,9 @@ def patterns(tier):
     if tier == "quick":
         pairs = [p for i, p in enumerate(pairs) if i % 11 == 0]
     pats += [list(p) for p in pairs]
+    # every row incomplete in some used variable
+    pats.append([("x", 0), ("x", 1), ("x", 2), ("z", 3), ("y", 4), ("x", 5)])
+    pats.append([("x", 0), ("x", 1), ("x", 2), ("y", 3), ("y", 4), ("y", 5)])
     if tier != "quick":
         trip = list(itertools.combinations(cells, 3))
         pats += [list(p) for i, p in enumerate(trip) if i % 9 == 0]
@@ -157,8 +160,10 @@ def harness(env, case):
         env.fail("unknown na_action accepted")
         return
     # reference: the frame without the rows that are incomplete in a used variable
+    if not keep and action != "pass":
+        return
     try:
-        ref = run(clean.iloc[keep], "error")
+        ref = run(clean.iloc[keep] if keep else clean, "error")
     except symx.PathEnd:
         raise
     except symx.Inconclusive:
@@ -202,6 +207,9 @@ def harness(env, case):
         return
     # pass
     L = labels_of(dm)
+    # "complete rows are encoded exactly as under drop" presupposes that dropping does not remove a
+    # level of a used categorical altogether (otherwise the two runs have different level sets)
+    same_levels = all(set(clean[c].iloc[keep]) == set(clean[c]) for c in COLS_CAT if c in used) and len(keep) > 0
     for k in R:
         if k not in M:
             continue
@@ -210,7 +218,8 @@ def harness(env, case):
             continue
         A = M[k] if M[k].ndim == 2 else M[k][:, None]
         B = R[k] if R[k].ndim == 2 else R[k][:, None]
-        env.prove_equal(A[keep], B, f"pass: complete rows encoded as under drop ({k})")
+        if same_levels:
+            env.prove_equal(A[keep], B, f"pass: complete rows encoded as under drop ({k})")
         labs = L.get(k, [])
         if len(labs) != A.shape[1]:
             continue
